@@ -27,7 +27,7 @@ class C14(SweepProp):
                'length': (0.1, 0.4), 'lowfi_prob': 0.1,
                'gap_models': ['none', 'none', 'flow', 'no_flow'],
                'vel': (0.5, 8.0), 'low_flow_prob': 0.05,
-               'grid_on_bound_prob': 0.3}
+               'grid_on_bound_prob': 0.3, 'cdd_coeff_prob': 0.5}
     tick_kinds = ('region', 'power', 'grid')
 
     def budget(self, tier):
